@@ -48,6 +48,14 @@ def gen_cases(params, rng, rows_per_w, nrand, widths=(16, 32, 64), bfly=True):
             # --- compute_shoup on arbitrary words (also >= p)
             for y in [0, 1, p - 1, p, p + 1, 2 * p - 1, 2 * p, 3 * p, 4 * p - 1, B - 1, B - 2, B // 2, B // 2 - 1] + [k * p for k in range(4, 9) if k * p < B] + [k * p - 1 for k in range(4, 9) if k * p - 1 < B]:
                 if 0 <= y < B: add("cshoup:boundary words incl >= p", "compute_shoup", y)
+            # --- quotient precomputation on the rounding boundary: y * 2^w = -s (mod p), small s, also shifted by multiples of p
+            ib = pow(B % p, p - 2, p)
+            for s_ in (1, 2, 3, 5, 8, 13):
+                y = (-s_) * ib % p
+                for k in (0, 1, 2, 3):
+                    if y + k * p < B: add("cshoup:y*2^w = -s mod p (quotient one below a multiple)", "compute_shoup", y + k * p)
+                x = (p - pow(y, p - 2, p)) % p
+                add("mulshoup:y on the quotient rounding boundary, x*y = -1", "mulmod_shoup", x, y)
             # --- random
             for _ in range(nrand):
                 x, y, z = R(), R(), R()
